@@ -60,8 +60,12 @@ struct Inputs {
 pub fn run_c07(cx: &mut Cx) {
     cx.preemptions_left = cx.ch.choose("preemptions", 3) as u32;
     let suite = gen_suite(cx);
-    let l = 1 + cx.ch.choose("L", 5) as usize;
-    let m = cx.ch.choose("M", 3) as usize;
+    // mostly small credentials; sometimes one generation needs more than 32 / 64 random scalars
+    let big = cx.ch.weighted("big_shape", &[6, 1, 1]);
+    let l = if big == 1 { 30 + cx.ch.choose("L_big", 45) as usize } else { 1 + cx.ch.choose("L", 5) as usize };
+    let m = if big == 2 { 31 + cx.ch.choose("M_big", 40) as usize } else { cx.ch.choose("M", 3) as usize };
+    if big == 1 { cx.count("probe.proof_with_more_than_32_random_scalars"); }
+    if big == 2 { cx.count("probe.commitment_with_more_than_32_random_scalars"); }
     let k = 2 + cx.ch.choose("holders", 5) as usize;
     let issuer = cx.node("issuer");
     let holders: Vec<NodeId> = (0..k).map(|i| cx.node(&format!("holder{i}"))).collect();
@@ -103,8 +107,8 @@ fn generation(cx: &mut Cx, h: NodeId, hi: usize, g: u64, op: u64, inp: Rc<Inputs
     let l = inp.msgs.len();
     let m = inp.committed.len();
     // same inputs for everybody: same disclosure set too
-    let didx: Vec<usize> = (0..l).filter(|i| i % 2 == 1).collect();
-    let dcidx: Vec<usize> = (0..m).filter(|i| i % 2 == 1).collect();
+    let didx: Vec<usize> = if l > 20 { vec![1] } else { (0..l).filter(|i| i % 2 == 1).collect() };
+    let dcidx: Vec<usize> = if m > 20 { vec![0] } else { (0..m).filter(|i| i % 2 == 1).collect() };
     match op {
         0 | 1 => {
             let (pk, sig, hd, ms, d) = (inp.pk.clone(), inp.sig.clone(), inp.header.clone(), inp.msgs.clone(), didx.clone());
